@@ -161,6 +161,23 @@ def check(run):
     if rep.get("matcher_model_disagreements"):
         run.violation("broken-correspondence", {"kind": "x64-matcher-model"}, f"lib/x64sweep.py's transcription of match_format_string disagrees with the plugin on {len(rep['matcher_model_disagreements'])} lines",
                       {"record": rep["matcher_model_disagreements"][:5]}, found_input=False)
+    # `push <literal>` without a size keyword: Intel-syntax disassembly prints `push 300` for the 16-bit and the 32/64-bit form alike, so this
+    # one is compared with llvm-mc as ASSEMBLER (the operand-size prefix changes what the instruction does to the stack pointer)
+    try:
+        import x64sweep
+        probes = [(m, f"push {v}") for m in ("x64", "x86") for v in (300, -300, 32767, -32768, 128, -129)]
+        pa = x64sweep.plug([f"cl ; .arch {m} ; {l}" for (m, l) in probes])
+        for (m, l), a in zip(probes, pa):
+            st, b = x64sweep.answer_bytes(a)
+            ref = x64sweep.assemble(m, l)
+            total += 1
+            if st == "ok" and ref is not None and b != ref:
+                run.violation("failing-input", {"kind": "x64-encoding", "group": "push-imm16-word-form"},
+                              f"`.arch {m}; {l}` assembles to {b.hex()}, llvm-mc assembles {ref.hex()}: the 16-bit push (66 68 iw) was selected for a literal without a size keyword",
+                              {"stream": "plug", "input": [f"cl ; .arch {m} ; {l}"], "impl": [a], "llvm": ref.hex()})
+                break
+    except Exception as e:      # noqa
+        run.violation("broken-correspondence", {"kind": "push-probe"}, f"the push probe could not run: {e}", found_input=False)
     # riscv operands llvm-mc 14 cannot judge (Zcmp register lists x stack adjustments, Zfa constants, CSR numbers): the independent
     # reference written from the ISA manuals and validated against the GNU-as vectors the repo pins (shared with C04)
     try:
